@@ -25,6 +25,9 @@ import (
 
 func TestMain(m *testing.M) { rec.Main(m, "C07") }
 
+// ruleMore describes what was added to the exploration in the build phase.
+const ruleMore = "; a token declared twice identically, and a production named in two levels through a later alternative of a non-leading rule handle, are among the seeded defects; half of the specifications are rendered in drawn layouts"
+
 const (
 	rule = "a well-formed specification model (tokens declared before/after use, unused tokens, tokens and literals used only in directives, directives interleaved) plus a drawn SET of seeded defects out of the eight documented kinds " +
 		"(undefined token, token defined twice, two terminals with one value, unknown predefined name, invalid pattern, non-terminal without production, no start rule, handle in two precedence levels); " +
@@ -552,7 +555,7 @@ func conflates(m *ref.SpecModel) bool {
 }
 
 func TestSeededDefects(t *testing.T) {
-	rec.Rule(rule)
+	rec.Rule(rule + ruleMore)
 	rec.Assume("diagnostics are recognised by their message templates; a diagnostic that is a consequence of a seeded defect (e.g. a token declared only with an unknown predefined name has no definition) counts as present; token conflicts reported by DFA() belong to C03 and are ignored here")
 	rec.Check(t, 4000, 160000, func(t *rapid.T) {
 		lits := []string{"a", "b", "+", "if"}
